@@ -53,7 +53,7 @@ REQ = ['Model.CashFlow']
 def gen_inputs(ctx):
     rnd = ctx.rng
     cfgs = configs.grid(ctx, 0)
-    extra = ctx.n(50, 1500)
+    extra = ctx.n(50, 900)
     for _ in range(extra):
         eu = rnd.choice(configs.ENDUSES)
         pl = rnd.choice(configs.ELEC_PLANTS if eu != 2 else [5, 6, 9, 9])
@@ -175,7 +175,7 @@ def run_inputs(ctx, texts):
         ctx.count('whole-runs', econ=R.econ, enduse=R.enduse, plant=R.plant, life=R.life, cy=R.cy, addons=R.addons,
                   irr_unique_by_C04_irr_unique=conventional and e('ProjectIRR') != 0)
         ctx.sample('whole-runs', desc)
-    failing = fw.kernel_bools(ctx, 'cashflow', REQ, terms, shard=120)
+    failing = fw.kernel_bools(ctx, 'cashflow', REQ, terms, shard=ctx.n(120, 40))
     ctx.count('whole-runs', evaluations=len(terms), nontrivial_keys=[tuple(o[3]) + (o[0],) for o in owners if o[3] is not None])
     for i in failing[:8]:
         stage, desc, text, _ = owners[i]
@@ -199,7 +199,7 @@ def npv_direct(ctx):
         disc = rnd.random() < 0.5
         v = Economics.calculate_npv(float(rate), [float(x) for x in cf], disc)
         sc = sum(abs(x) for x in cf) + 1
-        terms.append(f'close_scale {qconv.q(TOL)} {qconv.q(sc)} (calculate_npv_red {qconv.q(rate)} {qconv.qlist(cf)} {qconv.blit(disc)}) {econ.q15(v)}')
+        terms.append(f'close_scale {qconv.q(TOL)} {qconv.q(sc)} (calculate_npv {qconv.q(rate)} {qconv.qlist(cf)} {qconv.blit(disc)}) {econ.q15(v)}')
         descs.append({'rate': str(rate), 'n': n, 'discount_initial': disc, 'cf': [str(x) for x in cf[:6]]})
     failing = fw.kernel_bools(ctx, 'npv_direct', REQ, terms)
     ctx.count('calculate_npv-direct', evaluations=len(terms), nontrivial_keys=[(d['n'], d['discount_initial'], d['rate']) for d in descs if d['n'] > 1])
